@@ -157,14 +157,25 @@ func indexKey(name string, v interface{}) []byte {
 		if a == "" {
 			return nil
 		}
-		// '~' stands for the byte 0xff (binary index keys)
+		// '~' stands for the byte 0xff, '^' for the byte 0x00 (binary index keys)
 		k := []byte(a)
 		for i := range k {
 			if k[i] == '~' {
 				k[i] = 0xff
 			}
+			if k[i] == '^' {
+				k[i] = 0x00
+			}
 		}
 		return k
+	case "ie":
+		// a key that is empty, but not nil, for values whose field is empty: still indexed
+		if m, ok := v.(map[string]interface{}); ok {
+			if _, has := m["a"]; !has {
+				return nil
+			}
+		}
+		return append([]byte{}, a...)
 	default:
 		return []byte(strconv.Itoa(n % 3))
 	}
@@ -677,6 +688,12 @@ func checkIndexes(e *env, w Workload, obs state) string {
 				prefixes[string(k[:j])] = true
 			}
 		}
+		zeroKeys := false
+		for _, x := range es {
+			if strings.IndexByte(x.key, 0) >= 0 {
+				zeroKeys = true
+			}
+		}
 		sort.Slice(es, func(i, j int) bool {
 			if es[i].key != es[j].key {
 				return es[i].key < es[j].key
@@ -701,8 +718,18 @@ func checkIndexes(e *env, w Workload, obs state) string {
 					return fmt.Sprintf("index query %s prefix %q failed: %v", idx, p, err)
 				}
 				got, _ := res.([]string)
+				if zeroKeys {
+					// the separator byte inside keys leaves the relative order of some entries
+					// open: the same ids, in whatever order
+					got, want = append([]string(nil), got...), append([]string(nil), want...)
+					sort.Strings(got)
+					sort.Strings(want)
+				}
 				if fmt.Sprint(got) != fmt.Sprint(want) {
 					return fmt.Sprintf("index %s prefix %q reverse=%v returns %q, the stored values give %q", idx, p, rev, got, want)
+				}
+				if zeroKeys {
+					continue
 				}
 				// the same query through a key filter, an offset and a limit
 				var wwant []string
@@ -827,9 +854,9 @@ func runScenario(w Workload, kills map[int]Kill) (msg string, nontrivial bool, c
 func genWorkload() *rapid.Generator[Workload] {
 	return rapid.Custom(func(t *rapid.T) Workload {
 		w := Workload{Prefix: rapid.SampledFrom([]string{"", "pfx"}).Draw(t, "prefix"), Kind: rapid.SampledFrom([]string{"typed", "map", "binary"}).Draw(t, "kind")}
-		w.Indexes = rapid.SampledFrom([][]string{{"ia"}, {"ia", "in"}}).Draw(t, "indexes")
+		w.Indexes = rapid.SampledFrom([][]string{{"ia"}, {"ia", "in"}, {"ia", "ie"}}).Draw(t, "indexes")
 		ids := []string{"1", "2", "px", "k", "f1", "$me"} // some ids start with characters of the prefix "pfx." or of the init marker
-		as := []string{"a", "b", "ab", "", "a~", "~"}
+		as := []string{"a", "b", "ab", "", "a~", "~", "a^", "^b"}
 		ns := rapid.IntRange(0, 3).Draw(t, "nseeds")
 		seen := map[string]bool{}
 		for i := 0; i < ns; i++ {
@@ -1042,7 +1069,7 @@ var _ = filepath.Join
 // query (unlimited, filtered/windowed, both directions) against the stored values.
 func TestBulkRebuild(t *testing.T) {
 	rapid.Check(t, func(rt *rapid.T) {
-		w := Workload{Prefix: rapid.SampledFrom([]string{"", "pfx"}).Draw(rt, "prefix"), Kind: rapid.SampledFrom([]string{"typed", "map"}).Draw(rt, "kind"), Indexes: []string{"ia", "in"}}
+		w := Workload{Prefix: rapid.SampledFrom([]string{"", "pfx"}).Draw(rt, "prefix"), Kind: rapid.SampledFrom([]string{"typed", "map"}).Draw(rt, "kind"), Indexes: []string{"ia", "in", "ie"}}
 		n := rapid.IntRange(257, 400).Draw(rt, "values")
 		dir := bdb.TempDir("c12bulk")
 		defer os.RemoveAll(dir)
@@ -1051,8 +1078,23 @@ func TestBulkRebuild(t *testing.T) {
 			rt.Fatalf("VERIF-INCONCLUSIVE: %v", err)
 		}
 		obs := state{vals: map[string]string{}}
+		idStyle := rapid.IntRange(0, 2).Draw(rt, "idStyle")
+		if idStyle == 1 {
+			n = rapid.IntRange(257, 1100).Draw(rt, "manyvalues")
+		}
 		for i := 0; i < n; i++ {
-			op := Op{K: "create", ID: fmt.Sprintf("v%03d", i), A: rapid.SampledFrom([]string{"a", "b", "ab", "", "a~", "~"}).Draw(rt, "a"), N: rapid.IntRange(0, 9).Draw(rt, "n")}
+			id := fmt.Sprintf("v%03d", i)
+			switch idStyle {
+			case 1:
+				id = strconv.Itoa(i + 1) // plain numbers: "79" is a prefix of "790"
+			case 2:
+				// all strings over {a,b} by length: most keys are prefixes of the keys after them
+				id = ""
+				for k := i + 2; k > 1; k /= 2 {
+					id = string("ab"[k%2]) + id
+				}
+			}
+			op := Op{K: "create", ID: id, A: rapid.SampledFrom([]string{"a", "b", "ab", "", "a~", "~"}).Draw(rt, "a"), N: rapid.IntRange(0, 9).Draw(rt, "n")}
 			if err := e.apply(w, op); err != nil {
 				_ = e.db.Close()
 				rt.Fatalf("create %s: %v", op.ID, err)
@@ -1088,7 +1130,7 @@ func TestInitRace(t *testing.T) {
 	rapid.Check(t, func(rt *rapid.T) {
 		ids := []string{"1", "2", "px"}
 		as := []string{"a", "b", "ab", ""}
-		w := Workload{Prefix: rapid.SampledFrom([]string{"", "pfx"}).Draw(rt, "prefix"), Kind: rapid.SampledFrom([]string{"typed", "map", "binary"}).Draw(rt, "kind"), Indexes: []string{"ia", "in"}}
+		w := Workload{Prefix: rapid.SampledFrom([]string{"", "pfx"}).Draw(rt, "prefix"), Kind: rapid.SampledFrom([]string{"typed", "map", "binary"}).Draw(rt, "kind"), Indexes: []string{"ia", "in", "ie"}}
 		for _, id := range ids {
 			if rapid.IntRange(0, 3).Draw(rt, "seeded") > 0 {
 				w.Seeds = append(w.Seeds, Op{ID: id, A: rapid.SampledFrom(as).Draw(rt, "sa"), N: rapid.IntRange(0, 9).Draw(rt, "sn")})
@@ -1199,7 +1241,7 @@ func TestRebuildRace(t *testing.T) {
 	rapid.Check(t, func(rt *rapid.T) {
 		ids := []string{"1", "2", "px", "f1"}
 		as := []string{"a", "b", "ab", ""}
-		w := Workload{Prefix: rapid.SampledFrom([]string{"", "pfx"}).Draw(rt, "prefix"), Kind: rapid.SampledFrom([]string{"typed", "map"}).Draw(rt, "kind"), Indexes: []string{"ia", "in"}}
+		w := Workload{Prefix: rapid.SampledFrom([]string{"", "pfx"}).Draw(rt, "prefix"), Kind: rapid.SampledFrom([]string{"typed", "map"}).Draw(rt, "kind"), Indexes: []string{"ia", "in", "ie"}}
 		dir := bdb.TempDir("c12rebuild")
 		defer os.RemoveAll(dir)
 		e, err := openEnv(dir, w)
